@@ -370,6 +370,7 @@ class Facts:
             if x in seen:
                 continue
             seen.add(x)
+            st += sorted(getattr(self, "_inl_children", {}).get(x, ()))      # helpers inlined into a nested closure
             for c in self.children(x):
                 out.append(self.inlined(c) if c.kind == "closure" else c)
                 st.append(c.id)
